@@ -193,9 +193,10 @@ func decodeKeyCharByUnicodeRune(buf []byte, cursor int64) ([]byte, int64, error)
 	return []byte(string(r)), cursor + defaultOffset - 1, nil
 }
 
+// decodeKeyCharByEscapedChar decodes the escape whose character after the backslash is at cursor.
+// The returned cursor is the index of the last byte of the escape: the caller's loop advances past it.
 func decodeKeyCharByEscapedChar(buf []byte, cursor int64) ([]byte, int64, error) {
 	c := buf[cursor]
-	cursor++
 	switch c {
 	case '"':
 		return []byte{'"'}, cursor, nil
@@ -214,7 +215,7 @@ func decodeKeyCharByEscapedChar(buf []byte, cursor int64) ([]byte, int64, error)
 	case 't':
 		return []byte{'\t'}, cursor, nil
 	case 'u':
-		return decodeKeyCharByUnicodeRune(buf, cursor)
+		return decodeKeyCharByUnicodeRune(buf, cursor+1)
 	}
 	return nil, cursor, nil
 }
@@ -240,14 +241,13 @@ func decodeKeyByBitmapUint8(d *structDecoder, buf []byte, cursor int64) (int64, 
 			}
 			keyIdx := 0
 			bitmap := d.keyBitmapUint8
-			start := cursor
 			for {
 				c := char(b, cursor)
 				switch c {
 				case '"':
 					fieldSetIndex := bits.TrailingZeros8(curBit)
 					field := d.sortedFieldSets[fieldSetIndex]
-					keyLen := cursor - start
+					keyLen := int64(keyIdx)
 					cursor++
 					if keyLen < field.keyLen {
 						// early match
@@ -306,14 +306,13 @@ func decodeKeyByBitmapUint16(d *structDecoder, buf []byte, cursor int64) (int64,
 			}
 			keyIdx := 0
 			bitmap := d.keyBitmapUint16
-			start := cursor
 			for {
 				c := char(b, cursor)
 				switch c {
 				case '"':
 					fieldSetIndex := bits.TrailingZeros16(curBit)
 					field := d.sortedFieldSets[fieldSetIndex]
-					keyLen := cursor - start
+					keyLen := int64(keyIdx)
 					cursor++
 					if keyLen < field.keyLen {
 						// early match
@@ -424,7 +423,7 @@ func decodeKeyByBitmapUint8Stream(d *structDecoder, s *Stream) (*structFieldSet,
 				case '"':
 					fieldSetIndex := bits.TrailingZeros8(curBit)
 					field := d.sortedFieldSets[fieldSetIndex]
-					keyLen := cursor - start
+					keyLen := int64(keyIdx)
 					cursor++
 					s.cursor = cursor
 					if keyLen < field.keyLen {
@@ -511,7 +510,7 @@ func decodeKeyByBitmapUint16Stream(d *structDecoder, s *Stream) (*structFieldSet
 				case '"':
 					fieldSetIndex := bits.TrailingZeros16(curBit)
 					field := d.sortedFieldSets[fieldSetIndex]
-					keyLen := cursor - start
+					keyLen := int64(keyIdx)
 					cursor++
 					s.cursor = cursor
 					if keyLen < field.keyLen {
@@ -588,11 +587,11 @@ func decodeKeyCharByUnicodeRuneStream(s *Stream) ([]byte, error) {
 	return []byte(string(r)), nil
 }
 
+// decodeKeyCharByEscapeCharStream decodes the escape whose character after the backslash is at
+// s.cursor and leaves s.cursor on the last byte of the escape: the caller's loop advances past it.
 func decodeKeyCharByEscapeCharStream(s *Stream) ([]byte, error) {
-	c := s.buf[s.cursor]
-	s.cursor++
 RETRY:
-	switch c {
+	switch s.buf[s.cursor] {
 	case '"':
 		return []byte{'"'}, nil
 	case '\\':
@@ -610,6 +609,7 @@ RETRY:
 	case 't':
 		return []byte{'\t'}, nil
 	case 'u':
+		s.cursor++
 		return decodeKeyCharByUnicodeRuneStream(s)
 	case nul:
 		if !s.read() {
